@@ -153,3 +153,13 @@ package majority
 //@             && (forall k int :: 0 <= k && k < plen(ranking, iter1 - 1) ==> thisAlternativeWorse[k] == ranking[iter1 - 2][k].Alternative.Id)
 //@             && (forall m int :: 0 <= m && m < iter && m < i ==> thisAlternativeWorse[plen(ranking, iter1 - 1) + m] == ranking[iter1 - 1][m].Alternative.Id)
 //@             && (forall m int :: i < m && m < iter ==> thisAlternativeWorse[plen(ranking, iter1 - 1) + m - 1] == ranking[iter1 - 1][m].Alternative.Id)
+
+// ---- the tournament loop, one step at a time (C11, C01): the running winner meets the next alternative of the search order
+//@ func (*Majority).Evaluate
+//@   property C11 C01
+//@   loop 1 hint [running_winner_meets_the_next_one] s1 == score(*criteriaWithWeights, head(current), another, len(*criteriaWithWeights))
+//@             && s2 == score(*criteriaWithWeights, another, head(current), len(*criteriaWithWeights))
+//@   returnhint [the_undefeated_one_closes_the_last_group] len(worseThanCurrent) >= 1 && len(sameBuffer) >= 1
+//@             && sameBuffer[len(sameBuffer) - 1].Alternative == current && typeis(sameBuffer[len(sameBuffer) - 1].Evaluation, MajorityEvaluation)
+//@             && sameBuffer[len(sameBuffer) - 1].Evaluation.(MajorityEvaluation).Value == currentEvaluation
+//@             && worseThanCurrent[len(worseThanCurrent) - 1] == sameBuffer
